@@ -127,8 +127,8 @@ func (c *Conn) loop(ctx context.Context) {
 				if err != nil {
 					log.Println(err)
 				}
-				ok := n >= 0
-				if n < 0 {
+				ok := err == nil && n >= 0
+				if !ok {
 					n = 0
 				}
 				if err := req.Reply(ok, resp[:n]); err != nil {
